@@ -9,7 +9,8 @@
    C24's sequential specification from st0 yields every returned result.
    [Linearizable st0 h]: such an order exists. *)
 From verif Require Import lib.Base model.C24_F64 model.C24_StoreSpec model.C24 model.C26
-  proofs.C24_proofs proofs.C24_more proofs.C26_proofs proofs.C26_more proofs.C26_exact.
+  model.C26_retry proofs.C24_proofs proofs.C24_more proofs.C26_proofs proofs.C26_more proofs.C26_exact
+  proofs.C26_retry_proofs.
 From Coq Require Import Floats.SpecFloat.
 Open Scope N_scope.
 
@@ -84,6 +85,50 @@ Theorem C26_server_model_seq_unique : forall sortf, sort_contract sortf ->
     zi <> zj.
 Proof. exact server_model_seq_unique. Qed.
 Print Assumptions C26_server_model_seq_unique.
+
+(* The client's retry on ErrShutdown (model/C26_retry.v): a call makes up to
+   three attempts; an attempt either fails before anything is written
+   (RSendFail: ErrShutdown, the client reconnects and tries again) or is written
+   to a live connection (RSend), after which it is never retried; only written
+   requests can be executed.  Contract of pkg/rpc used: ErrShutdown means the
+   request was not written.  For every interleaving of invocations, failed
+   attempts, sends, executions and replies: *)
+
+(* ... the history stays linearizable, *)
+Theorem C26_retry_linearizable : forall sortf, sort_contract sortf ->
+  forall st0 acts,
+  Linearization st0 (v_hist (r_sv (rrun sortf st0 acts))) (v_lin (r_sv (rrun sortf st0 acts))).
+Proof. intros sortf H st0 acts. exact (retry_linearizable sortf st0 H acts). Qed.
+Print Assumptions C26_retry_linearizable.
+
+(* ... and every request is executed at most once: no request is executed
+   twice; none is written to a connection twice; only written requests are
+   executed; a call fails at most three times and a written one fewer; and the
+   bucket sequence has advanced by exactly the number of executed AddCmd
+   requests — a retried AddCmd never adds its command twice. *)
+Theorem C26_retry_at_most_once : forall sortf st0 acts,
+  let s := rrun sortf st0 acts in
+  NoDup (v_lin (r_sv s))
+  /\ NoDup (r_sent s)
+  /\ (forall i, In i (v_lin (r_sv s)) -> In i (r_sent s))
+  /\ (forall i, (attempts_failed i s <= max_attempts)%nat
+                /\ (In i (r_sent s) -> (attempts_failed i s < max_attempts)%nat))
+  /\ (s_seq st0 + N.of_nat (length (v_hist (r_sv s))) < two64 ->
+      s_seq (v_st (r_sv s)) = s_seq st0 + N.of_nat (length (adds_executed (r_sv s)))).
+Proof. exact retry_at_most_once. Qed.
+Print Assumptions C26_retry_at_most_once.
+
+(* an AddCmd whose first two attempts hit a shut-down connection is executed
+   once; a fourth attempt, a second send and an execution before the send do
+   nothing *)
+Example C26_example_retry :
+  let s := rrun isort_desc (spec_init 0)
+             [RInvoke 1 (OAddCmd [97]); RExec 0; RSendFail 0; RSendFail 0; RSend 0; RSend 0;
+              RSendFail 0; RExec 0; RExec 0; RRespond 0; RInvoke 1 ONextCmdSeq; RSend 1; RExec 1; RRespond 1] in
+  v_lin (r_sv s) = [0; 1]%nat /\ r_sent s = [1; 0]%nat /\ r_failed s = [0; 0]%nat
+  /\ map k_ret (v_hist (r_sv s)) = [Some (RInt 1, 2); Some (RInt 2, 5)]
+  /\ s_seq (v_st (r_sv s)) = 1.
+Proof. vm_compute. repeat split; reflexivity. Qed.
 
 (* Non-vacuity.  Two clients add concurrently, a third lists afterwards. *)
 Definition ex_h : history :=
